@@ -40,3 +40,11 @@ VARIANTS += [
     M('C07', 'class-level-type-memo', E(DR, "    def get_database_column_type(self, tablename, colname):\n        typeMap = {", "    column_types = {}\n\n    def get_database_column_type(self, tablename, colname):\n        if (tablename, colname) in self.column_types:\n            return self.column_types[(tablename, colname)]\n        self.column_types[(tablename, colname)] = None\n        typeMap = {"),
       rule='C07-NOSHARED', key='column_types'),
 ]
+
+VARIANTS += [
+    M('C07', 'nunique-from-declared-categories', E(PC, "        return int(self.df[colname].nunique())", "        col = self.df[colname]\n        if col.dtype.name == 'category':\n            return len(col.cat.categories)\n        return int(col.nunique())"),
+      rule='C07-OBSERVED', key='calc_nunique'),
+    M('C07', 'unique-values-from-value_counts', E(PC, "        values = self.df[colname].unique()\n        nullvalues", "        values = self.df[colname].value_counts(dropna=False, sort=False).index\n        nullvalues"),
+      rule='C07-OBSERVED', key='calc_unique_values'),
+    M('C07', 'refactor-value_counts-filtered', E(PC, "        values = self.df[colname].unique()\n        nullvalues", "        vc = self.df[colname].value_counts(dropna=False, sort=False)\n        values = vc[vc > 0].index\n        nullvalues"), kind='refactor'),
+]
